@@ -258,6 +258,75 @@ func verifModes(req *VerifRequest, resp *VerifResponse) {
 		}
 		resp.Results = append(resp.Results, out)
 	}
+	resp.Notes = append(resp.Notes, "orders:"+strconv.Itoa(len(orders)))
+	if req.Mode != "c15" {
+		return
+	}
+	// nested parses in the global form: the generated PushContex()/PopContex() pair saves and restores
+	// the parser state, so a complete inner parse may run while an outer one is suspended in GetToken
+	base := resp.Results[0]
+	out := make([]VerifResult, len(req.Cases))
+	inner := make([]VerifResult, 0)
+	for k := range req.Cases {
+		for at := 0; at <= len(req.Cases[k]); at++ {
+			ok := (k + 1) % len(req.Cases)
+			other := req.Cases[ok]
+			if base[ok].Verdict == "steplimit" {
+				other = ""
+			}
+			var innerRes VerifResult
+			fired := false
+			verifNested = func(pos int) {
+				if pos != at || fired {
+					return
+				}
+				fired = true
+				sl, sf, sn := verifLog, verifFetchLog, verifFetched
+				hook := verifNested
+				verifNested = nil
+				atomic.StoreInt32(&verifConcurrent, 1)
+				PushContex()
+				func() {
+					defer func() {
+						if e := recover(); e != nil {
+							innerRes.Verdict, innerRes.Msg = verifClassify(e)
+						}
+					}()
+					ParserInit()
+					v := Parser(other)
+					innerRes.Verdict = "accept"
+					if v == nil {
+						innerRes.Verdict = "nilresult"
+					}
+					innerRes.Value = verifStartVal(v)
+				}()
+				PopContex()
+				atomic.StoreInt32(&verifConcurrent, 0)
+				verifNested = hook
+				verifLog, verifFetchLog, verifFetched = sl, sf, sn
+			}
+			r := verifParseOnce(k, req.Cases[k])
+			verifNested = nil
+			r.Msg = r.Msg + "|at=" + strconv.Itoa(at)
+			if at == 0 {
+				out[k] = r
+			}
+			if r.Verdict != base[k].Verdict || r.Value != base[k].Value || fmt.Sprint(r.Log) != fmt.Sprint(base[k].Log) {
+				out[k] = r
+				out[k].Verdict = "DIFFERS-WHEN-NESTED:" + r.Verdict
+				break
+			}
+			if fired {
+				if innerRes.Log == nil {
+					innerRes.Log = []int{}
+				}
+				innerRes.Msg = strconv.Itoa(ok) + "|" + innerRes.Msg
+				inner = append(inner, innerRes)
+			}
+		}
+	}
+	resp.Results = append(resp.Results, out, inner)
+	resp.Notes = append(resp.Notes, "nested:2")
 }
 `
 
